@@ -1,6 +1,10 @@
 package main
 
-import "unicode"
+import (
+	"go/types"
+	"strings"
+	"unicode"
+)
 
 // goFloatSyntax is the syntax strconv.ParseFloat accepts (decimal and hexadecimal
 // floating-point literals, infinities and NaN), without digit-separating underscores.
@@ -15,4 +19,23 @@ func foldOrbitTerm(c rune, r *Term) *Term {
 		t = Or(t, Eq(r, BV(32, uint64(uint32(f)))))
 	}
 	return t
+}
+
+// isProtoMessageType: pointer to (or value of) a generated protobuf message type.
+func isProtoMessageType(t types.Type) bool {
+	if p, ok := t.Underlying().(*types.Pointer); ok {
+		t = p.Elem()
+	}
+	n, ok := types.Unalias(t).(*types.Named)
+	if !ok || n.Obj().Pkg() == nil {
+		return false
+	}
+	pp := n.Obj().Pkg().Path()
+	for _, pre := range []string{"github.com/openconfig/gnmi/proto/", "google.golang.org/protobuf/types/", "github.com/openconfig/ygot/proto/", "google.golang.org/genproto/"} {
+		if strings.HasPrefix(pp, pre) {
+			_, isStruct := n.Underlying().(*types.Struct)
+			return isStruct
+		}
+	}
+	return false
 }
